@@ -136,6 +136,7 @@ def _pnorm_subgrad(x, w, p, fill=0.0):
 
 class Ref(object):
     name = 'Ref'
+    is_linear = False         # linear functional (finite everywhere)
     thin_conj_dom = False     # dom f* has empty interior (single point)
     thin_dom = False          # dom f has empty interior
     smooth = False            # C^2 on the interior of its domain
@@ -589,6 +590,7 @@ class Constant(Ref):
     def __init__(self, geo, constant=0.0):
         Ref.__init__(self, geo)
         self.c = float(constant)
+        self.is_linear = self.c == 0
 
     def value(self, x):
         return self.c
@@ -633,6 +635,7 @@ class QuadraticForm(Ref):
             self.S = None
             self.pd = False
             self.thin_conj_dom = True
+            self.is_linear = self.c == 0
 
     def value(self, x):
         x = np.asarray(x, float)
@@ -906,6 +909,7 @@ class LeftScal(Ref):
         Ref.__init__(self, f.geo)
         self.f, self.s = f, float(s)
         self.name = 'FunctionalLeftScalarMult'
+        self.is_linear = f.is_linear
         self.smooth = f.smooth
         self.thin_conj_dom = f.thin_conj_dom
         self.thin_dom = f.thin_dom
@@ -917,6 +921,9 @@ class LeftScal(Ref):
         return self.s * self.f.value(x)
 
     def conj(self, y):
+        if self.s < 0 and self.f.is_linear:
+            # s f = f(s .) is linear, hence convex, for every s != 0
+            return self.f.conj(np.asarray(y, float) / self.s)
         if self.s <= 0:
             return None
         v = self.f.conj(np.asarray(y, float) / self.s)
@@ -957,6 +964,7 @@ class RightScal(Ref):
         Ref.__init__(self, f.geo)
         self.f, self.s = f, float(s)
         self.name = 'FunctionalRightScalarMult'
+        self.is_linear = f.is_linear
         self.smooth = f.smooth
         self.thin_conj_dom = f.thin_conj_dom
         self.thin_dom = f.thin_dom
